@@ -28,21 +28,21 @@ import (
 // tree it does not know; Z: the zero id.
 
 type c07env struct {
-	cl              *fix.Cluster
-	ov              *onet.Overlay
-	wire            bool
-	trees           map[string]*onet.Tree
-	rosters         map[string]*onet.Roster
-	toks            map[string]*onet.Token
-	mu              sync.Mutex
-	handed          int
-	delivered       int
-	replies         int
-	syncTok         *onet.Token
-	syncN           int
-	val             int
-	flushStarted    int64
-	flushDone       int64
+	cl           *fix.Cluster
+	ov           *onet.Overlay
+	wire         bool
+	trees        map[string]*onet.Tree
+	rosters      map[string]*onet.Roster
+	toks         map[string]*onet.Token
+	mu           sync.Mutex
+	handed       int
+	delivered    int
+	replies      int
+	syncTok      *onet.Token
+	syncN        int
+	val          int
+	flushStarted int64
+	flushDone    int64
 }
 
 type c07peer struct{ e *c07env }
